@@ -5,6 +5,20 @@ use crate::chars::{AsciiChar, Char};
 use crate::score::{BONUS_FIRST_CHAR_MULTIPLIER, SCORE_MATCH};
 use crate::Matcher;
 
+/// Iterates over the start positions of all (possibly overlapping) occurrences
+/// of `needle` in `haystack`. `needle` must not be empty.
+fn find_overlapping<'a>(
+    haystack: &'a [u8],
+    needle: &'a [u8],
+) -> impl Iterator<Item = usize> + 'a {
+    let mut pos = 0;
+    std::iter::from_fn(move || {
+        let i = pos + memmem::find(&haystack[pos..], needle)?;
+        pos = i + 1;
+        Some(i)
+    })
+}
+
 impl Matcher {
     pub(crate) fn substring_match_1_ascii<const INDICES: bool>(
         &mut self,
@@ -133,12 +147,16 @@ impl Matcher {
                         return None;
                     }
                 }
+                // starts with non-letters: search that (case insensitive) prefix literally
                 Some(len) => {
                     (max_score, max_pos) = self.substring_match_ascii_with_prefilter(
                         haystack,
                         needle,
-                        1,
-                        memmem::find_iter(&haystack[..haystack.len() - needle.len() + len], needle),
+                        len,
+                        find_overlapping(
+                            &haystack[..haystack.len() - needle.len() + len],
+                            &needle[..len],
+                        ),
                     );
                     if max_score == 0 {
                         return None;
